@@ -54,6 +54,9 @@ var wireEndpoints = []wireEndpoint{
 type WireCase struct {
 	Endpoint int      `json:"endpoint"`
 	Cert     CertSpec `json:"cert"`
+	// PrevPlus1 > 0: the client (one TLS session cache, one server name - all endpoints share the server certificate) first connects to
+	// endpoint PrevPlus1-1 with the same certificate and only then to Endpoint; what an endpoint decided must not carry over to another
+	PrevPlus1 int `json:"prev_plus1,omitempty"`
 }
 
 func genWire(t *rapid.T) WireCase {
@@ -87,6 +90,9 @@ func genWire(t *rapid.T) WireCase {
 		}
 	}
 	c.Cert = s
+	if rapid.IntRange(0, 2).Draw(t, "hasprev") == 0 {
+		c.PrevPlus1 = 1 + rapid.IntRange(0, len(wireEndpoints)-1).Draw(t, "prev")
+	}
 	return c
 }
 
@@ -97,7 +103,14 @@ var (
 )
 
 func wireCall(p *pki, proc *binfx.Proc, repl bool, cert *tls.Certificate, d time.Duration) error {
+	return wireCallS(p, proc, repl, cert, d, nil)
+}
+
+func wireCallS(p *pki, proc *binfx.Proc, repl bool, cert *tls.Certificate, d time.Duration, cache tls.ClientSessionCache) error {
 	ccfg := &tls.Config{InsecureSkipVerify: true, NextProtos: []string{"h2"}}
+	if cache != nil {
+		ccfg.ClientSessionCache, ccfg.ServerName = cache, "server"
+	}
 	if cert != nil {
 		ccfg.GetClientCertificate = func(*tls.CertificateRequestInfo) (*tls.Certificate, error) { return cert, nil }
 	}
@@ -215,7 +228,16 @@ func runWire(c WireCase, o *vt.Obs) *vt.Failure {
 		return nil
 	}
 	want, why := p.shouldAccept(TLSCase{AllowedCN: ep.allowedCN, AllowedHostname: ep.allowedHostname}, chain)
-	rerr := wireCall(p, proc, ep.repl, cert, 20*time.Second)
+	var cache tls.ClientSessionCache
+	if c.PrevPlus1 > 0 && c.PrevPlus1 <= len(wireEndpoints) {
+		cache = tls.NewLRUClientSessionCache(8)
+		pe := wireEndpoints[c.PrevPlus1-1]
+		if perr := wireCallS(p, wirePs[pe.proc], pe.repl, cert, 20*time.Second, cache); perr == nil {
+			o.Label("wire-earlier-connection-to-another-endpoint-was-served")
+			why += " (the same client had just been served by endpoint " + fmt.Sprint(c.PrevPlus1-1) + " and kept its TLS session cache)"
+		}
+	}
+	rerr := wireCallS(p, proc, ep.repl, cert, 20*time.Second, cache)
 	if !proc.Alive() {
 		if proc.KilledFromOutside() {
 			vt.Inconclusive("C17 tls process killed from outside")
